@@ -10,6 +10,8 @@ import (
 var e2Props = map[string]*simcheck.Prop{
 	"C01": {ID: "C01", Gen: c01Gen, New: newHistScenario, Exec: c01Exec, Simplify: histSimplify},
 	"C02": {ID: "C02", Gen: c02Gen, New: newHistScenario, Exec: c02Exec, Simplify: histSimplify},
+	"C08": {ID: "C08", Gen: c08Gen, New: newHistScenario, Exec: c08Exec, Simplify: histSimplify},
+	"C06": {ID: "C06", Gen: c06Gen, New: newHistScenario, Exec: c06Exec, Simplify: loadSimplify},
 }
 
 func TestVerifWorker(t *testing.T) {
